@@ -26,11 +26,13 @@ class Prog:
 
     def __init__(self, name, dsl, features=None, manual=False, bottom_up=False, payload="void", sublimit=None,
                  taskcap=None, scripted_rng=True, cxx="g++", std="c++17", opt="-O1", san=False, asserts=False,
-                 flavour="single", args=None):
+                 flavour="single", args=None, verbose_log=False):
         self.name = name
         self.dsl = dsl
         self.root = st.parse(dsl)
         feats = list(ALL_FEATURES if features is None else features)
+        if verbose_log:
+            feats = [f for f in feats if f != "HFSM2_ENABLE_LOG_INTERFACE"] + ["HFSM2_ENABLE_VERBOSE_DEBUG_LOG"]
         if not st.serializable(self.root) and "HFSM2_ENABLE_SERIALIZATION" in feats:
             feats.remove("HFSM2_ENABLE_SERIALIZATION")
         if st.uses_utility(self.root) and "HFSM2_ENABLE_UTILITY_THEORY" not in feats:
@@ -42,7 +44,7 @@ class Prog:
                              flags=(["-DVT_ASSERT"] if asserts else []))
         self.args = list(args or [])
         self.exe = None
-        self.label = "%s%s%s%s%s" % (name, "/manual" if manual else "", "/bottomup" if bottom_up else "",
+        self.label = "%s%s%s%s%s%s" % (name, "/verbose" if verbose_log else "", "/manual" if manual else "", "/bottomup" if bottom_up else "",
                                      "/" + payload if payload != "void" else "",
                                      "/%s%s%s" % (cxx, "-san" if san else "", "-assert" if asserts else ""))
 
